@@ -127,7 +127,9 @@ func RunBinary(p *Plan, o ExecOpts) (*ExecOut, error) {
 		return nil, err
 	}
 	defer os.RemoveAll(tmp)
-	env := append(goEnv(), "HOME="+tmp)
+	// DBUS_SESSION_BUS_ADDRESS: the SDK's keyring probes the desktop secret service through D-Bus; with the
+	// variable unset every invocation of the binary would auto-launch a dbus-daemon that outlives it.
+	env := append(goEnv(), "HOME="+tmp, "DBUS_SESSION_BUS_ADDRESS=unix:path=/nonexistent/verif-no-dbus")
 	{
 		c := exec.Command("go", "build", "-o", bin, "./cmd/fundraisingd")
 		c.Dir = RepoDir()
